@@ -69,7 +69,7 @@ class Stage2Intrinsics(NumIntrinsics):
             items = []
             for s, j in self._find_quote(eng, st, bs):
                 # 32-byte loads up to the quote's window must stay inside buf: j + 32 + 12 <= len(buf)
-                if not eng.oblige(s, j + 44 <= n, "panic", "string decoder reads past the buffer the wrapper provides (needs 44 bytes beyond the cursor)", pos):
+                if not eng.oblige(s, j + 44 <= n, "ub", "string decoder reads past the buffer the wrapper provides (needs 44 bytes beyond the cursor)", pos):
                     continue
                 eng.store(s, pdst, j - 1, pos, 64)
                 # needCopy unchanged: escape-free => src length == dst length
@@ -89,7 +89,7 @@ class Stage2Intrinsics(NumIntrinsics):
                 ln = eng.need_int(s, sb.len, pos, "string buffer length")
                 cp = eng.need_int(s, sb.cap, pos, "string buffer capacity")
                 # the copy routine stores in 32-byte chunks: it needs len + (j-1) + 32 <= cap (lemma S3)
-                if not eng.oblige(s, ln + (j - 1) + 32 <= cp, "panic", "string copy writes past the string buffer's capacity (needs 32 bytes of slack)", pos):
+                if not eng.oblige(s, ln + (j - 1) + 32 <= cp, "ub", "string copy writes past the string buffer's capacity (needs 32 bytes of slack)", pos):
                     continue
                 src = eng.mk_slice(s, bs[1:j])
                 nsb = eng.bi_append(s, sb, src, pos, {"t": None}) if j > 1 else sb
@@ -125,7 +125,7 @@ class Stage2Intrinsics(NumIntrinsics):
                 for q in range(processed, blockend):
                     a = A + q
                     if a < len(want) and want[a] == 1:
-                        if not eng.oblige(st, idx < nidx, "panic", "stage-1 kernel writes past the index buffer", pos_):
+                        if not eng.oblige(st, idx < nidx, "ub", "stage-1 kernel writes past the index buffer", pos_):
                             return 0
                         # FLAT: first set bit of a block: distance + carried empty bits; later ones: distance to the previous bit
                         delta = (q - processed + 1 + carried) if last is None else (q - last)
@@ -372,7 +372,7 @@ class Stage2EscIntrinsics(Stage2SummIntrinsics):
                 sb = eng.deref(s, psb, pos)
                 ln = eng.need_int(s, sb.len, pos, "string buffer length")
                 cp = eng.need_int(s, sb.cap, pos, "string buffer capacity")
-                if not eng.oblige(s, ln + len(dec) + 32 <= cp, "panic", "string copy writes past the string buffer's capacity (needs 32 bytes of slack)", pos):
+                if not eng.oblige(s, ln + len(dec) + 32 <= cp, "ub", "string copy writes past the string buffer's capacity (needs 32 bytes of slack)", pos):
                     continue
                 if dec:
                     nsb = eng.bi_append(s, sb, eng.mk_slice(s, dec), pos, {"t": None})
